@@ -22,7 +22,8 @@ LEVEL = "exploration"
 RULE = ("exhaustive: every (parent, position, child) triple over 17 node kinds x 7 leaf kinds, and every depth-2 composition "
         "of + - * / unary-minus and of AND/OR/NOT over comparisons; sampled depth-3 compositions (48k quick / 3M thorough) "
         "and seeded random trees to depth 7; each under six dialect contexts in bare / select-list / WHERE position. "
-        "non-trivial = the tree has at least one compound child; distinct = canonical tree")
+        "non-trivial = the tree has at least one compound child; distinct = canonical tree"
+        " also: MOD, FILTER conjunctions, negated predicates, explicit Bracket nodes, Criterion.any/all groups as parents; every tree again after an unrelated replace_table and a copy. (DESIGN.md 6a)")
 ASSUMPTIONS = [
     "reference precedence: OR < XOR < AND < NOT < comparison/IS/IN/BETWEEN/LIKE < + - < * / < unary minus, binary levels "
     "left-associative (comparisons included: most lenient standard reading)",
